@@ -70,6 +70,7 @@ def runLoadFull04 (j : Json) : R Json := do
   | .error (.base e) => pure (jLoadErr04 e)
   | .error (.shape w) => pure (Json.mkObj [("error", Json.str ("shape " ++ w))])
   | .error (.scalarAttr f) => pure (Json.mkObj [("error", Json.str ("scalar_attr " ++ f))])
+  | .error .curatedWithoutTemplates => pure (Json.mkObj [("error", Json.str "curated_without_templates")])
   | .ok (fv, d') =>
     let v := fv.base
     let positions := match fv.positions with
